@@ -43,9 +43,10 @@ Record RootArith := {
 
 Inductive lexit := Converged | Stalled | Exhausted.
 
-(* result of one laguer call: final iterate, exit reason, value of `*iterations`, finiteness of x *)
-Record lres (X : Type) := mkL { lx : X; lwhy : lexit; liters : nat; lfinite : bool }.
-Arguments mkL {X}. Arguments lx {X}. Arguments lwhy {X}. Arguments liters {X}. Arguments lfinite {X}.
+(* result of one laguer call: final iterate, exit reason, value of `*iterations`, finiteness of the
+   iterate on entry and on exit (the last two are trace only) *)
+Record lres (X : Type) := mkL { lx : X; lwhy : lexit; liters : nat; lfin_in : bool; lfinite : bool }.
+Arguments mkL {X}. Arguments lx {X}. Arguments lwhy {X}. Arguments liters {X}. Arguments lfin_in {X}. Arguments lfinite {X}.
 
 Section Model.
 Context (RA : RootArith).
@@ -161,20 +162,20 @@ Definition laguer_step (a : list K) (m : nat) (iter : nat) (x : K) : res (lexit 
        Ok (inr (sub x (kmulr RA dx fr))).
 
 (* `for iter in 1..MAXIT`: fuel = number of iterations left; falling out of the loop is [Exhausted] *)
-Fixpoint laguer_loop (a : list K) (m : nat) (fuel iter : nat) (x : K) : res (lres K) :=
+Fixpoint laguer_loop (a : list K) (m : nat) (fin0 : bool) (fuel iter : nat) (x : K) : res (lres K) :=
   match fuel with
-  | 0 => Ok (mkL x Exhausted (iter - 1) (kfinite RA x))
+  | 0 => Ok (mkL x Exhausted (iter - 1) fin0 (kfinite RA x))
   | S fuel' =>
       let* o := laguer_step a m iter x in
       match o with
-      | inl why => Ok (mkL x why iter (kfinite RA x))
-      | inr x' => laguer_loop a m fuel' (S iter) x'
+      | inl why => Ok (mkL x why iter fin0 (kfinite RA x))
+      | inr x' => laguer_loop a m fin0 fuel' (S iter) x'
       end
   end.
 
 Definition laguer (a : list K) (x : K) : res (lres K) :=
   let* m := usub (length a) 1 in            (* let m = a.size() - 1; *)
-  laguer_loop a m (MAXIT - 1) 1 x.
+  laguer_loop a m (kfinite RA x) (MAXIT - 1) 1 x.
 
 (* ---- forward deflation (mod.rs:290-295): returns the new `ad` and the final `b` ---- *)
 Definition deflate_body (x : K) (jj : nat) (s : list K * K) : res (list K * K) :=
@@ -248,21 +249,22 @@ End Model.
 (* ================= the float instance: IEEE + oracle table ================= *)
 From OV Require Import Base.Flat Inst.FloatInst.
 
-(* one recorded call: which (0 sqrt, 1 pow, 2 polar), the four argument bit patterns, the result *)
-Definition oentry := (nat * list Z * (float * float))%type.
+(* The oracle table is a flat list of floats, seven per recorded call:
+     which (0 sqrt, 1 pow, 2 polar); the four arguments; the two results
+   (hexadecimal float literals are read exactly and cheaply; Z numerals of 19 digits are not).
+   Arguments are matched BITWISE ([fsame]: -0 differs from +0 -- sqrt(-0+0i) and sqrt(+0+0i) differ --
+   and NaN matches NaN, there being one NaN in Coq's binary64). *)
+Definition fsame (x y : float) : bool :=
+  if PrimFloat.eqb x y
+  then (if PrimFloat.eqb x 0%float then PrimFloat.eqb (PrimFloat.div 1%float x) (PrimFloat.div 1%float y) else true)
+  else negb (PrimFloat.eqb x x) && negb (PrimFloat.eqb y y).
 
-Fixpoint zlist_eqb (a b : list Z) : bool :=
-  match a, b with
-  | [], [] => true
-  | x :: a', y :: b' => Z.eqb x y && zlist_eqb a' b'
-  | _, _ => false
-  end.
-
-Fixpoint olookup (tbl : list oentry) (w : nat) (key : list Z) : res (cplx AF) :=
+Fixpoint olookup (tbl : list float) (w k1 k2 k3 k4 : float) : res (cplx AF) :=
   match tbl with
-  | [] => Panic Unwrap                              (* oracle miss *)
-  | (w', key', (r, i)) :: t =>
-      if (w =? w') && zlist_eqb key key' then Ok (@mkC AF r i) else olookup t w key
+  | w' :: a :: b :: c :: d :: r :: i :: t =>
+      if PrimFloat.eqb w w' && fsame k1 a && fsame k2 b && fsame k3 c && fsame k4 d
+      then Ok (@mkC AF r i) else olookup t w k1 k2 k3 k4
+  | _ => Panic Unwrap                               (* oracle miss *)
   end.
 
 (* f64::max: the other operand if one is NaN *)
@@ -275,7 +277,7 @@ Definition f_finite (x : float) : bool := PrimFloat.eqb (PrimFloat.sub x x) 0%fl
 Definition F_EPS : float := Z.ldexp 1%float (-52)%Z.        (* f64::EPSILON = 2^-52 *)
 Definition F_HALF : float := Z.ldexp 1%float (-1)%Z.
 
-Definition FloatRA (tbl : list oentry) : RootArith := {|
+Definition FloatRA (tbl : list float) : RootArith := {|
   RR := SAF; KK := ACF;
   mkk := @mkC AF; kre := @re AF; kim := @im AF;
   kabs := fun z : cplx AF => PrimFloat.sqrt (@abs_sqr AF z);
@@ -284,22 +286,22 @@ Definition FloatRA (tbl : list oentry) : RootArith := {|
   rfabs := PrimFloat.abs; rmax := fmax;
   rhalf := F_HALF; reps := F_EPS; rfrac := LAGUER_FRAC;
   kfinite := fun z : cplx AF => f_finite (re z) && f_finite (im z);
-  osqrt := fun z : cplx AF => olookup tbl 0 [bits (re z); bits (im z); 0%Z; 0%Z];
-  opow := fun z w : cplx AF => olookup tbl 1 [bits (re z); bits (im z); bits (re w); bits (im w)];
-  opolar := fun r th : float => olookup tbl 2 [bits r; bits th; 0%Z; 0%Z];
+  osqrt := fun z : cplx AF => olookup tbl 0 (re z) (im z) 0 0;
+  opow := fun z w : cplx AF => olookup tbl 1 (re z) (im z) (re w) (im w);
+  opolar := fun r th : float => olookup tbl 2 r th 0 0;
 |}.
 
 (* Polynomial<f64>::roots converts every coefficient with Cmplx::new( c, 0.0 ) (mod.rs:194-200) *)
-Definition roots_f64 (tbl : list oentry) (coeffs : list float) (refine : bool) :=
+Definition roots_f64 (tbl : list float) (coeffs : list float) (refine : bool) :=
   poly_solve (FloatRA tbl) (map (fun c => @mkC AF c 0%float) coeffs) refine.
-Definition roots_cplx (tbl : list oentry) (coeffs : list (cplx AF)) (refine : bool) :=
+Definition roots_cplx (tbl : list float) (coeffs : list (cplx AF)) (refine : bool) :=
   poly_solve (FloatRA tbl) coeffs refine.
 
 (* output streams *)
 Definition exit_code (e : lexit) : nat := match e with Converged => 0 | Stalled => 1 | Exhausted => 2 end.
 Definition fl_lres (l : lres (cplx AF)) : list Z :=
-  fl_nat (exit_code (lwhy l)) ++ fl_nat (liters l) ++ fl_bool (lfinite l).
-(* tie: the roots only;  trace: the roots, then (exit reason, iterations, finite) of every laguer call *)
+  fl_nat (exit_code (lwhy l)) ++ fl_nat (liters l) ++ fl_bool (lfin_in l) ++ fl_bool (lfinite l).
+(* tie: the roots only;  trace: the roots, then (exit reason, iterations, finite on entry, finite on exit) of every laguer call *)
 Definition fl_roots (r : res (list (cplx AF) * list (lres (cplx AF)))) : list Z :=
   fl_res (fun p => fl_list flat_cf (fst p)) r.
 Definition fl_roots_trace (r : res (list (cplx AF) * list (lres (cplx AF)))) : list Z :=
